@@ -26,8 +26,63 @@ MG = c02.MG
 MGD = c02.MGD
 
 
+LAST = "core::option::Option::unwrap(core::slice::last(self.window))"
+ENTRY = "core::iter::traits::iterator::Iterator::enumerate(core::slice::iter(self.window))[*].1"
+ENTRY_IDX = "core::iter::traits::iterator::Iterator::enumerate(core::slice::iter(self.window))[*].0"
+CUR = LAST + ".data[self.suffix_idx..]"
+
+
+def _updates(body, canon, pv):
+    """[(kind, op, canonical target, provenance of the value, node)] for every assignment in the body"""
+    out = []
+    for x, _ in H.walk(body["body"]):
+        if x.get("k") in ("Assign", "AssignOp"):
+            out.append((x["k"], x.get("op", "="), canon(x["l"]), pv(x["r"]), x))
+    return out
+
+
+def _resolve(canon, n, depth=0):
+    """follow plain `let x = e` bindings from a local to the expression that defines it"""
+    n = hq.peel(n)
+    while n.get("k") in ("AddrOf",):
+        n = hq.peel(n["e"])
+    if n.get("k") == "Local" and depth < 8:
+        d = canon.defs.get(n["lid"])
+        if d is not None and d[0] == "let" and not d[2] and not d[3] and n["lid"] not in canon.assigned:
+            return _resolve(canon, d[1], depth + 1)
+    return n
+
+
+def _candidate_stores(nb, ix, pv):
+    """the mutable Option local whose Some((offset, match_len)) becomes the reported Triple, and the stores into it"""
+    tri = [x for x, _ in H.walk(nb["body"]) if x.get("k") == "StructLit" and (x["path"].get("path") or "").endswith("Sequence::Triple")]
+    if len(tri) != 1:
+        raise Anchor("exactly one Sequence::Triple emission expected, found %d" % len(tri))
+    f = {x["name"]: x["e"] for x in tri[0]["fields"]}
+    off = hq.peel(f["offset"])
+    d = ix.canon.defs.get(off.get("lid")) if off.get("k") == "Local" else None
+    cand = hq.peel(d[1]) if d else {}
+    if cand.get("k") != "Local" or not d[2].endswith(".0.0"):
+        raise Anchor("the Triple's offset is not the first member of a candidate Option")
+    ml = hq.peel(f["match_len"])
+    d2 = ix.canon.defs.get(ml.get("lid")) if ml.get("k") == "Local" else None
+    if not d2 or hq.peel(d2[1]).get("lid") != cand["lid"] or not d2[2].endswith(".0.1"):
+        raise Anchor("the Triple's match_len is not the second member of the same candidate")
+    stores = []
+    for x, _ in H.walk(nb["body"]):
+        if x.get("k") == "Assign" and hq.peel(x["l"]).get("k") == "Local" and hq.peel(x["l"])["lid"] == cand["lid"]:
+            r = hq.peel(x["r"])
+            if r.get("k") == "Call" and H.strip_generics(H.callee(r) or "").endswith("Option::Some") and hq.peel(r["args"][0]).get("k") == "Tup" \
+                    and len(hq.peel(r["args"][0])["elems"]) == 2:
+                stores.append((x, hq.peel(r["args"][0])["elems"][0], hq.peel(r["args"][0])["elems"][1]))
+            else:
+                raise Anchor("candidate assigned something other than Some((offset, match_len))")
+    return tri[0], cand, stores
+
+
 def run(ctx):
     crate = ctx.crate()
+    MIN = ctx.const("ruzstd::encoding::match_generator::MIN_MATCH_LEN")
     R = "C17.agree.window"
 
     def window():
@@ -41,103 +96,165 @@ def run(ctx):
         c = rix.canon(wl[0]["cond"]) if len(wl) == 1 else None
         ctx.check(c == "(self.max_window_size < ($0 + self.window_size))", R, "reserve::evicts-while-over-bound", rb["file"],
                   "entries are evicted while window_size + amount > max_window_size", observed=c)
-        st = [H.show(hq.peel(x.get("e") or x.get("init") or {})) for x in hq.top_statements(wl[0]["body"])] if wl else []
-        ok = "self.window.remove(0)" in st and "self.window_size -= removed.data.len()" in st
-        ctx.check(ok, R, "reserve::evicts-oldest-and-accounts", rb["file"], "the oldest entry is removed and its length subtracted")
+        ups = [(u[1], u[2], u[3]) for u in _updates(rb, rix.canon, hq.Canon(rb, force=True)) if wl and rix.contains(wl[0], u[4])]
+        want = ("-=", "self.window_size", "alloc::vec::Vec::len(alloc::vec::Vec::remove(self.window, 0).data)")
+        ctx.check(want in ups, R, "reserve::evicts-oldest-and-accounts", rb["file"], "the oldest entry is removed and its length subtracted",
+                  observed=ups)
         ab = ctx.hir(MG + "::add_data")
         aix = hq.Index(ab)
         push = [x for x in hq.find(ab["body"], lambda x: x.get("k") == "MethodCall" and x["name"] == "push" and hq.self_fields(x["recv"]) == ["window"])]
         rs = dom.dominated_by_call(aix, push[0], "MatchGenerator::reserve") if len(push) == 1 else None
         ok = rs is not None and aix.canon(rs["args"][0]) == "alloc::vec::Vec::len($0)"
         ctx.check(ok, R, "add_data::reserve-before-push", ab["file"], "room is made for exactly the new data before it is pushed")
-        s = H.show(ab["body"])
-        ctx.check("self.window_size += len" in s and "let len = data.len()" in s, R, "add_data::window-size-accounts-new-data", ab["file"],
-                  "window_size grows by the pushed length")
+        ups = [(u[1], u[2], u[3]) for u in _updates(ab, aix.canon, hq.Canon(ab, force=True))]
+        tops = [hq.peel(x.get("e") or {}) for x in hq.top_statements(ab["body"])]
+        okw = ("+=", "self.window_size", "alloc::vec::Vec::len($0)") in ups and \
+            any(t.get("k") == "AssignOp" and aix.canon(t["l"]) == "self.window_size" for t in tops)
+        ctx.check(okw, R, "add_data::window-size-accounts-new-data", ab["file"], "window_size grows (unconditionally) by the pushed length",
+                  observed=[u for u in ups if u[1] == "self.window_size"])
         w = dom.field_writers(ctx, MG + ".window_size")
         ctx.check(set(w) == {MG + "::new", MG + "::reset", MG + "::add_data", MG + "::reserve"}, R, "window_size::writers", "", "writers of window_size",
                   observed=sorted(w))
-        nb = ctx.hir(MG + "::next_sequence")
-        fr = [x for x in hq.find(nb["body"], lambda x: x.get("k") == "For")]
-        ok = len(fr) == 1 and H.show(fr[0]["iter"]) == "self.window.iter().enumerate()"
-        ctx.check(ok, R, "next_sequence::candidates-only-from-window", nb["file"], "candidates come only from entries still in the window",
-                  observed=[H.show(x["iter"]) for x in fr])
         db = ctx.hir(MGD + "::new")
         c_ = dom.one_call(db, "MatchGenerator::new")
-        ctx.check(H.show(hq.peel(c_["args"][0])) == "(max_slices_in_window * slice_size)", R, "driver::window-is-slices-times-size", db["file"],
-                  "the bound is slices * slice size")
+        v = hq.Canon(db)(c_["args"][0])
+        ctx.check(v == "($0 * $1)", R, "driver::window-is-slices-times-size", db["file"], "the bound is slices * slice size", observed=v)
     ctx.guard(R, "window", window)
 
     RB = "C17.book.base-offset"
 
     def book():
         ab = ctx.hir(MG + "::add_data")
-        s = H.show(ab["body"])
-        ok = "if let Option::Some(last_len) = self.window.last().map(|last| last.data.len())" in s and \
-            "for entry in self.window.iter_mut() { entry.base_offset += last_len }" in s
-        ctx.check(ok, RB, "add_data::shift-by-previous-last-length", ab["file"],
-                  "every existing entry's base offset grows by the length of the entry that was last so far")
-        lit = hq.struct_lits(ab["body"], "WindowEntry")
-        f = {x["name"]: H.show(hq.peel(x["e"])) for x in lit[0]["fields"]} if lit else {}
-        ctx.check(f.get("base_offset") == "0" and f.get("data") == "data" and f.get("suffixes") == "suffixes", RB, "add_data::new-entry-base-zero",
-                  ab["file"], "the new (last) entry has base offset 0", observed=f)
+        aix = hq.Index(ab)
+        apv = hq.Canon(ab, force=True)
+        ups = _updates(ab, aix.canon, apv)
         fo = [x for x in hq.find(ab["body"], lambda x: x.get("k") == "For")]
+        sh = [u for u in ups if u[1] == "+=" and u[2].endswith(".base_offset")]
+        ok = len(fo) == 1 and aix.canon(fo[0]["iter"]) == "core::slice::iter_mut(self.window)" and len(sh) == 1 and aix.contains(fo[0], sh[0][4]) and \
+            sh[0][3].startswith("core::option::Option::map(core::slice::last(self.window), ") and sh[0][3].endswith("@Option::Some.0") and \
+            ".data" in sh[0][3] and "len" in sh[0][3] and \
+            [p["cond"] for p in aix.path_conditions(sh[0][4]) if p["kind"] in ("if", "arm") and "last(self.window)" in p["cond"]] != []
+        ctx.check(ok, RB, "add_data::shift-by-previous-last-length", ab["file"],
+                  "every existing entry's base offset grows by the length of the entry that was last so far", observed=[u[:4] for u in sh])
+        lit = hq.struct_lits(ab["body"], "WindowEntry")
+        f = {x["name"]: aix.canon(x["e"]) for x in lit[0]["fields"]} if lit else {}
+        ctx.check(f == {"base_offset": "0", "data": "$0", "suffixes": "$1"}, RB, "add_data::new-entry-base-zero",
+                  ab["file"], "the new (last) entry has base offset 0 and holds the new data and its suffix store", observed=f)
         psh = [x for x in hq.find(ab["body"], lambda x: x.get("k") == "MethodCall" and x["name"] == "push" and hq.self_fields(x["recv"]) == ["window"])]
         ctx.check(len(fo) == 1 and len(psh) == 1 and fo[0]["sp"][1] < psh[0]["sp"][0], RB, "add_data::shift-before-push", ab["file"],
                   "offsets are shifted before the new entry is appended")
         w = dom.field_writers(ctx, "ruzstd::encoding::match_generator::WindowEntry.base_offset")
         ctx.check(set(w) <= {MG + "::add_data", MG + "::reserve"} and MG + "::add_data" in w, RB, "base_offset::writers", "", "writers of base_offset",
                   observed=sorted(w))
+        # the reported offset and length, by provenance of what is stored into the candidate
         nb = ctx.hir(MG + "::next_sequence")
         ix = hq.Index(nb)
-        off = [x for x in hq.find(nb["body"], lambda x: x.get("k") == "LetStmt" and x["pat"].get("name") == "offset")]
-        s = H.show(hq.peel(off[0]["init"])) if off else None
-        ctx.check(s == "((match_entry.base_offset + self.suffix_idx) - match_index)", RB, "next_sequence::offset-formula", nb["file"],
-                  "offset = entry base offset + current position - match position", observed=s)
-        # match_index comes from the same entry's store, looked up with the key at the current position
-        il = [x for x in hq.find(nb["body"], lambda x: x.get("k") == "Let" and "match_index" in H.show_pat(x["pat"]))]
-        s = H.show(hq.peel(il[0]["init"])) if il else None
-        ctx.check(s == "match_entry.suffixes.get(key)", RB, "next_sequence::index-from-same-entry", nb["file"],
-                  "the match position is looked up in the suffix store of the entry whose base offset is used", observed=s)
-        H.PRETTY_RANGES = True
-        try:
-            key = [H.show(hq.peel(x["init"])) for x in hq.find(nb["body"], lambda x: x.get("k") == "LetStmt" and x["pat"].get("name") == "key")]
-            ds = [H.show(hq.peel(x["init"])) for x in hq.find(nb["body"], lambda x: x.get("k") == "LetStmt" and x["pat"].get("name") == "data_slice")]
-            ms = [H.show(hq.peel(x["init"])) for x in hq.find(nb["body"], lambda x: x.get("k") == "LetStmt" and x["pat"].get("name") == "match_slice")]
-        finally:
-            H.PRETTY_RANGES = False
-        mn_ = ctx.const("ruzstd::encoding::match_generator::MIN_MATCH_LEN")
-        ctx.check(key[:1] == ["&data_slice[..%d]" % mn_] and "&data_slice[self.suffix_idx..]" in ds, RB, "next_sequence::key-at-current-position",
-                  nb["file"], "the key is the MIN_MATCH_LEN bytes at the current position", observed=[key, ds])
-        want_ms = "if is_last { &match_entry.data[match_index..self.suffix_idx] } else { &match_entry.data[match_index..] }"
-        ctx.check(ms == [want_ms], RB, "next_sequence::last-entry-candidate-ends-at-position", nb["file"],
+        pv = hq.Canon(nb, force=True, max_depth=14)
+        tri, cand, stores = _candidate_stores(nb, ix, pv)
+        KEY = CUR + "[..%d]" % MIN
+        GET = "ruzstd::encoding::match_generator::SuffixStore::get(%s.suffixes, %s)@Option::Some.0" % (ENTRY, KEY)
+        want_off = "((%s.base_offset + self.suffix_idx) - %s)" % (ENTRY, GET)
+        offs = sorted(set(pv(o) for _, o, _ in stores))
+        ctx.check(bool(stores) and offs == [want_off], RB, "next_sequence::offset-formula", nb["file"],
+                  "offset = base offset of the entry the match was found in + current position - match position, the match position "
+                  "looked up in that same entry's suffix store with the MIN_MATCH_LEN bytes at the current position; entries come "
+                  "only from self.window", observed=offs, expected=[want_off])
+        # the candidate slice: inside the last entry it ends at the current position
+        lens = sorted(set(pv(l) for _, _, l in stores))
+        CPL = "ruzstd::encoding::match_generator::MatchGenerator::common_prefix_len("
+        okl = len(lens) == 1 and lens[0].startswith(CPL) and lens[0].endswith(", %s)" % CUR)
+        ms = lens[0][len(CPL):-len(", %s)" % CUR)] if okl else ""
+        import re
+        m = re.fullmatch(r"if (?P<c>.+) \{ (?P<a>.+) \} else \{ (?P<b>.+) \}", ms)
+        bounded, free = "%s.data[%s..self.suffix_idx]" % (ENTRY, GET), "%s.data[%s..]" % (ENTRY, GET)
+        oks = bool(m) and (m.group("a"), m.group("b")) == (bounded, free)
+        ctx.check(okl, RB, "next_sequence::match_len-compares-candidate-with-input", nb["file"],
+                  "match length = common prefix of the candidate slice and the data at the current position", observed=lens)
+        ctx.check(oks, RB, "next_sequence::last-entry-candidate-ends-at-position", nb["file"],
                   "inside the current block a candidate may not extend beyond the current position", observed=ms)
-        il2 = [H.show(hq.peel(x["init"])) for x in hq.find(nb["body"], lambda x: x.get("k") == "LetStmt" and x["pat"].get("name") == "is_last")]
-        ctx.check(il2 == ["(match_entry_idx == (self.window.len() - 1))"], RB, "next_sequence::is_last", nb["file"], "last-entry test", observed=il2)
+        # the test selecting the bounded slice is `entry index == window.len() - 1` (as a linear equation)
+        okt = False
+        obs = None
+        if stores:
+            l0 = _resolve(ix.canon, stores[0][2])
+            a0 = _resolve(ix.canon, l0["args"][0]) if l0.get("k") == "Call" and l0.get("args") else {}
+            if a0.get("k") == "If":
+                cnd = _resolve(ix.canon, a0["cond"])
+                if cnd.get("k") == "Binary" and cnd["op"] == "==":
+                    lin = bounds.make_lin(ix)
+                    form = L.sub(lin.of(cnd["l"]), lin.of(cnd["r"]))
+                    terms, cst = form
+                    obs = L.show(form)
+                    idx = [t for t in terms if t.endswith("[*].0") and "enumerate" in t]
+                    ln = [t for t in terms if t.startswith("len(") and "self.window" in t]
+                    okt = len(terms) == 2 and len(idx) == 1 and len(ln) == 1 and terms[idx[0]] == -terms[ln[0]] and \
+                        abs(terms[idx[0]]) == 1 and cst == terms[idx[0]]
+        ctx.check(okt, RB, "next_sequence::is_last", nb["file"], "last-entry test: entry index + 1 == window.len()", observed=obs)
     ctx.guard(RB, "book", book)
 
     RD = "C17.dom.recheck"
 
     def recheck():
+        from .. import booleval
         nb = ctx.hir(MG + "::next_sequence")
         ix = hq.Index(nb)
-        asg = [x for x in hq.find(nb["body"], lambda x: x.get("k") == "Assign" and H.show(hq.peel(x["l"])) == "candidate")]
-        ok = len(asg) == 2
-        for a in asg:
-            cs = dom.conds(ix, a)
-            ok = ok and any(c.startswith("(%d <= " % ctx.const("ruzstd::encoding::match_generator::MIN_MATCH_LEN")) and "common_prefix_len" in
-                            hq.Canon(nb, inline=True, force=True, max_depth=3)(_cond_node(ix, a, c)) for c in cs)
-            ok = ok and H.show(hq.peel(a["r"])) == "Option::Some((offset, match_len))"
+        pv = hq.Canon(nb, force=True, max_depth=14)
+        tri, cand, stores = _candidate_stores(nb, ix, pv)
+        ok = len(stores) >= 1
+        for a, o, l in stores:
+            want = "(%d <= %s)" % (MIN, pv(l))
+            got = [pv(p["expr"]) if p.get("pos", True) else None for p in ix.path_conditions(a) if "expr" in p]
+            got += ["(%d <= %s)" % (MIN, pv(hq.peel(p["expr"])["l"])) for p in ix.path_conditions(a)
+                    if "expr" in p and not p.get("pos", True) and hq.peel(p["expr"]).get("k") == "Binary" and hq.peel(p["expr"])["op"] == "<"
+                    and H.lit_val(hq.peel(p["expr"])["r"]) == MIN]
+            ok = ok and want in got
         ctx.check(ok, RD, "next_sequence::candidate-only-after-recheck", nb["file"],
                   "a candidate (offset, match_len) is recorded only under match_len >= MIN_MATCH_LEN, with match_len from common_prefix_len")
-        ml = [H.show(hq.peel(x["init"])) for x in hq.find(nb["body"], lambda x: x.get("k") == "LetStmt" and x["pat"].get("name") == "match_len")]
-        ctx.check(ml == ["MatchGenerator::common_prefix_len(match_slice, data_slice)"], RD, "next_sequence::match_len-compares-candidate-with-input", nb["file"],
-                  "match length = common prefix of the candidate slice and the data at the current position", observed=ml)
-        mn = ctx.const("ruzstd::encoding::match_generator::MIN_MATCH_LEN")
-        ctx.check(mn >= 3, RD, "MIN_MATCH_LEN>=3", "", "the format's minimum match length is 3", observed=mn)
-        # best candidate selection: longer wins, ties by smaller offset
-        sel = [H.show(hq.peel(x["cond"])) for x in hq.find(nb["body"], lambda x: x.get("k") == "If" and "old_match_len" in H.show(x["cond"]))]
-        ctx.check("((old_match_len < match_len) || ((match_len == old_match_len) && (offset < old_offset)))" in sel, RD, "next_sequence::selection", nb["file"],
-                  "longer match wins; equal length prefers the nearer one", observed=sel)
+        ctx.check(MIN >= 3, RD, "MIN_MATCH_LEN>=3", "", "the format's minimum match length is 3", observed=MIN)
+        # selection as a truth table: a found candidate replaces the current one iff there is none yet, it is longer,
+        # or equally long and nearer
+        fr = [x for x in hq.find(nb["body"], lambda x: x.get("k") == "For")]
+        if len(fr) != 1 or not stores:
+            raise Anchor("candidate loop not found")
+        be = booleval.BoolEval(ix)
+        atoms, table = be.reach_table([a for a, _, _ in stores], hq.Index.CASE_KINDS, below=fr[0])
+        cn = ix.canon({"k": "Local", "lid": cand["lid"], "name": "?"})
+        Lc, Oc = ix.canon(stores[0][2]), ix.canon(stores[0][1])
+        oldO, oldL = cn + "@Option::Some.0.0", cn + "@Option::Some.0.1"
+        role = {}
+        for a in atoms:
+            sp = booleval._split_top(a)
+            if a == "none(%s)" % cn:
+                role["none"] = a
+            elif a.startswith("none(") and "SuffixStore::get(" in a:
+                role["nohit"] = a
+            elif sp and sp[1] == "<" and sp[2] == str(MIN) and sp[0] == Lc:
+                role["short"] = a
+            elif sp and sp[1] == "<" and (sp[0], sp[2]) == (oldL, Lc):
+                role["longer"] = a
+            elif sp and sp[1] == "<" and (sp[0], sp[2]) == (Lc, oldL):
+                role["shorter"] = a
+            elif sp and sp[1] == "==" and {sp[0], sp[2]} == {oldL, Lc}:
+                role["same"] = a
+            elif sp and sp[1] == "<" and (sp[0], sp[2]) == (Oc, oldO):
+                role["nearer"] = a
+            elif sp and sp[1] == "<" and (sp[0], sp[2]) == (oldO, Oc):
+                role["farther"] = a
+            else:
+                role.setdefault("?", []).append(a)
+        need = {"none", "nohit", "short", "same", "nearer"}
+        oksel = need <= set(role) and "?" not in role and ("longer" in role or "shorter" in role)
+        bad = []
+        if oksel:
+            def want(s_):
+                longer = s_[role["longer"]] if "longer" in role else (not s_[role["shorter"]] and not s_[role["same"]])
+                nearer = s_[role["nearer"]]
+                return (not s_[role["nohit"]]) and (not s_[role["short"]]) and (s_[role["none"]] or longer or (s_[role["same"]] and nearer))
+            bad = booleval.table_equals(atoms, table, want)
+        ctx.check(oksel and not bad, RD, "next_sequence::selection", nb["file"],
+                  "a re-checked candidate is taken iff there is none yet, or it is longer, or equally long and nearer (truth table)",
+                  observed={"atoms": {k: (v if isinstance(v, list) else v[-60:]) for k, v in role.items()}, "rows": len(table),
+                            "mismatches": [(sorted(k[-40:] for k, v in b_[0].items() if v), b_[1], b_[2]) for b_ in bad[:3]]})
     ctx.guard(RD, "recheck", recheck)
 
     RT = "C17.book.tiling"
@@ -145,49 +262,61 @@ def run(ctx):
     def tiling():
         nb = ctx.hir(MG + "::next_sequence")
         ix = hq.Index(nb)
-        H.PRETTY_RANGES = True
-        try:
-            lits = hq.find(nb["body"], lambda x: x.get("k") == "StructLit" and "Sequence::" in (x["path"].get("path") or ""))
-            tri = [x for x in lits if x["path"]["path"].endswith("Triple")]
-            lt = [x for x in lits if x["path"]["path"].endswith("Literals")]
-            lets = {}
-            for x in hq.find(nb["body"], lambda x: x.get("k") == "LetStmt" and x["pat"].get("k") == "Bind" and x.get("init")):
-                lets.setdefault(x["pat"]["name"], []).append(H.show(hq.peel(x["init"])))
-            ok = len(tri) == 1 and "&last_entry.data[self.last_idx_in_sequence..self.suffix_idx]" in lets.get("literals", [])
-            blk = None
-            for a in ix.ancestors(tri[0]):
-                if a.get("k") == "Block":
-                    blk = a
-                    break
-            s = H.show(blk) if blk else ""
-            ok = ok and "self.suffix_idx += match_len; self.last_idx_in_sequence = self.suffix_idx" in s and \
-                s.index("let literals") < s.index("self.suffix_idx += match_len") < s.index("handle_sequence(")
-            ctx.check(ok, RT, "next_sequence::triple-bookkeeping", nb["file"],
-                      "literals = data[last_idx..pos]; then pos += match_len and last_idx = pos, before the sequence is handed out")
-            ls = [H.show(x) for x in lt]
-            ok2 = len(lt) == 2 and "&data_slice[self.last_idx_in_sequence..]" in lets.get("literals", []) and \
-                any("literals: &last_entry.data[last_idx_in_sequence..]" in x for x in ls)
-            ctx.check(ok2, RT, "next_sequence::trailing-literals-from-last-index", nb["file"], "the trailing literals start where the last sequence ended",
-                      observed=ls)
-            ast = [x for x in dom.callers_of(ctx.crate(), "MatchGenerator::add_suffixes_till") if x[0] == MG + "::next_sequence"]
-            ok3 = len(ast) == 1 and H.show(hq.peel(ast[0][1]["args"][0])) == "(self.suffix_idx + match_len)" and ast[0][1]["sp"][0] < tri[0]["sp"][0]
-            ctx.check(ok3, RT, "next_sequence::matched-range-registered", nb["file"], "the matched range is registered in the suffix store before the position moves")
-        finally:
-            H.PRETTY_RANGES = False
+        pv = hq.Canon(nb, force=True, max_depth=14)
+        tri, cand, stores = _candidate_stores(nb, ix, pv)
+        f = {x["name"]: pv(x["e"]) for x in tri["fields"]}
+        blk = None
+        for a in ix.ancestors(tri):
+            if a.get("k") == "Block" and a.get("stmts"):
+                blk = a
+                break
+        order = {}
+        if blk is not None:
+            for i, st in enumerate(blk["stmts"]):
+                e = hq.peel(st.get("e") or st.get("init") or {})
+                if st.get("k") == "LetStmt" and st.get("init") is not None and pv(st["init"]) == f["literals"]:
+                    order.setdefault("literals", i)
+                if e.get("k") == "AssignOp" and e["op"] == "+=" and ix.canon(e["l"]) == "self.suffix_idx" and pv(e["r"]) == f["match_len"]:
+                    order.setdefault("advance", i)
+                if e.get("k") == "Assign" and ix.canon(e["l"]) == "self.last_idx_in_sequence" and ix.canon(e["r"]) == "self.suffix_idx":
+                    order.setdefault("mark", i)
+                if any(x is tri for x, _ in H.walk(st)):
+                    order.setdefault("emit", i)
+                if e.get("k") == "MethodCall" and e["name"] == "add_suffixes_till" and pv(e["args"][0]) == "(%s + self.suffix_idx)" % f["match_len"]:
+                    order.setdefault("register", i)
+        ok = f["literals"] == "%s.data[self.last_idx_in_sequence..self.suffix_idx]" % LAST and \
+            set(order) == {"literals", "advance", "mark", "emit", "register"} and \
+            order["literals"] < order["advance"] < order["mark"] < order["emit"]
+        ctx.check(ok, RT, "next_sequence::triple-bookkeeping", nb["file"],
+                  "literals = data[last_idx..pos]; then pos += match_len and last_idx = pos, before the sequence is handed out",
+                  observed={"literals": f["literals"], "order": order})
+        ctx.check("register" in order and "advance" in order and order["register"] < order["advance"], RT, "next_sequence::matched-range-registered", nb["file"],
+                  "the matched range is registered in the suffix store before the position moves", observed=order)
+        lt = [x for x, _ in H.walk(nb["body"]) if x.get("k") == "StructLit" and (x["path"].get("path") or "").endswith("Sequence::Literals")]
+        ls = [pv(x["fields"][0]["e"]) for x in lt]
+        ok2 = len(lt) == 2 and set(ls) == {"%s.data[self.last_idx_in_sequence..]" % LAST}
+        ctx.check(ok2, RT, "next_sequence::trailing-literals-from-last-index", nb["file"], "the trailing literals start where the last sequence ended",
+                  observed=ls)
         sk = ctx.hir(MG + "::skip_matching")
-        s = H.show(sk["body"])
-        ctx.check("self.add_suffixes_till(len); self.suffix_idx = len; self.last_idx_in_sequence = len" in s, RT, "skip_matching::registers-and-advances", sk["file"],
-                  "a skipped block is registered completely and both indices move to its end")
+        six = hq.Index(sk)
+        spv = hq.Canon(sk, force=True)
+        LEN = "alloc::vec::Vec::len(%s.data)" % LAST
+        seq = []
+        for st in hq.top_statements(sk["body"]):
+            e = hq.peel(st.get("e") or {})
+            if e.get("k") == "MethodCall" and e["name"] == "add_suffixes_till":
+                seq.append(("register", spv(e["args"][0])))
+            elif e.get("k") == "Assign":
+                seq.append((six.canon(e["l"]), spv(e["r"])))
+        ok = ("register", LEN) in seq and ("self.suffix_idx", LEN) in seq and ("self.last_idx_in_sequence", LEN) in seq and \
+            seq.index(("register", LEN)) < seq.index(("self.suffix_idx", LEN))
+        ctx.check(ok, RT, "skip_matching::registers-and-advances", sk["file"],
+                  "a skipped block is registered completely and both indices move to its end", observed=seq)
         ab = ctx.hir(MG + "::add_data")
-        s = H.show(ab["body"])
-        ctx.check(s.rstrip(" }").endswith("self.suffix_idx = 0; self.last_idx_in_sequence = 0"), RT, "add_data::indices-restart", ab["file"],
-                  "both indices restart at 0 for a new block")
+        aix = hq.Index(ab)
+        tops = [hq.peel(x.get("e") or {}) for x in hq.top_statements(ab["body"])]
+        z = [(aix.canon(t["l"]), aix.canon(t["r"])) for t in tops if t.get("k") == "Assign"]
+        ctx.check(("self.suffix_idx", "0") in z and ("self.last_idx_in_sequence", "0") in z, RT, "add_data::indices-restart", ab["file"],
+                  "both indices restart (unconditionally) at 0 for a new block", observed=z)
     ctx.guard(RT, "tiling", tiling)
-    ctx.floor("C17.all", len([o for o in ctx.obs if o.cfg == ctx.cfg]), 24, "C17 obligations")
-
-
-def _cond_node(ix, site, cond):
-    for p in ix.path_conditions(site):
-        if p["cond"] == cond and "expr" in p:
-            return p["expr"]
-    return {"k": "Lit", "lit": {"str": ""}}
+    ctx.floor("C17.all", len([o for o in ctx.obs if o.cfg == ctx.cfg]), 22, "C17 obligations")
